@@ -568,6 +568,9 @@ def d_unit_counter(prog, b, s):
                 return None
             if rv["binop"] == "AddWithOverflow":
                 return "unit increment of a %s counter: cannot overflow for texts below 4 GiB" % c["ty"]
+            if c["ty"] in ("i32", "i64", "isize"):
+                # a signed counter underflows only after 2^31 unit decrements, each of which consumed input
+                return "unit decrement of a signed %s counter: cannot underflow for texts below 4 GiB" % c["ty"]
             var = op_local(rv["a"])
             src = var
             d = b.single_def(var) if var is not None else None
